@@ -2,6 +2,7 @@ import JmesVerif.Lemmas.Signature
 import JmesVerif.Generated.Signatures
 import JmesVerif.Generated.Vocab
 import JmesVerif.Lemmas.CodeEquiv
+import JmesVerif.Lemmas.ValidEquiv
 /-!
 # C06 — built-in functions enforce their signatures: arity and argument types
 
@@ -119,6 +120,21 @@ theorem C06_translated_validate_arity (s : Sig) (actual off : Nat) :
     arityToExcept off (validate_arity s.inputs s.variadic actual) = s.validateArity actual off :=
   gen_validate_arity_eq s actual off
 
+
+/-! ### the signature validator as re-translated from functions.rs on every run
+
+`Generated/ValidCode.lean` (by `tools/rs2lean.py`) holds the bodies of `ArgumentType::is_valid`, `Signature::validate`, `validate_arg`,
+`validate_arity` and the `Display` impls that name the declared and the actual type, with checked indexing.  They equal the model's validator
+for every signature and argument list: the first offending position is the one reported, arity is checked before types, and the checked
+`self.inputs[k]` of the non-variadic loop can never be out of bounds once the arity check has passed (a safety fact of the source, proved). -/
+open Generated.ValidCode in
+theorem C06_translated_validator :
+    (∀ (t : ArgT) (v : Val), is_valid t v = t.isValid v) ∧
+    (∀ (s : Sig) (args : List Val) (off : Nat), toExcept off (validate s.inputs s.variadic args) = s.validate args off) ∧
+    (∀ (inputs : List ArgT) (variadic : Option ArgT) (args : List Val) (f : Fault), validate inputs variadic args ≠ .error (.fault f)) ∧
+    (∀ t : ArgT, argument_type_fmt t = t.name) ∧ (∀ t : JType, jmespath_type_fmt t = t.name) :=
+  ⟨gen_is_valid_eq, gen_validate_eq, gen_validate_no_fault, gen_argt_name_eq, gen_jtype_name_eq⟩
+
 end JmesVerif
 
 #print axioms JmesVerif.C06_signature_table
@@ -132,3 +148,4 @@ end JmesVerif
 #print axioms JmesVerif.C06_expref_args_shape
 #print axioms JmesVerif.C06_type_vocabulary
 #print axioms JmesVerif.C06_translated_validate_arity
+#print axioms JmesVerif.C06_translated_validator
